@@ -15,30 +15,7 @@
 mod verif_tls {
     // verification seam: a `thread_local!` written anywhere in this crate becomes the simulator's
     // (one value per simulated task, fresh in every simulated process)
-    // (through `verif_sync::LocalKey`, which keeps std's rule that a value whose type needs no destructor
-    // stays accessible while the thread's other thread-locals are destroyed)
-    macro_rules! thread_local {
-        (@one $(#[$attr:meta])* $vis:vis $name:ident, $t:ty, $init:expr) => {
-            $(#[$attr])* $vis static $name: crate::verif_sync::LocalKey<$t> = crate::verif_sync::LocalKey {
-                inner: shuttle::thread::LocalKey { init: || { $init }, _p: std::marker::PhantomData },
-            };
-        };
-        () => {};
-        ($(#[$attr:meta])* $vis:vis static $name:ident: $t:ty = const { $init:expr }; $($rest:tt)*) => (
-            thread_local!(@one $(#[$attr])* $vis $name, $t, $init);
-            thread_local!($($rest)*);
-        );
-        ($(#[$attr:meta])* $vis:vis static $name:ident: $t:ty = const { $init:expr }) => (
-            thread_local!(@one $(#[$attr])* $vis $name, $t, $init);
-        );
-        ($(#[$attr:meta])* $vis:vis static $name:ident: $t:ty = $init:expr; $($rest:tt)*) => (
-            thread_local!(@one $(#[$attr])* $vis $name, $t, $init);
-            thread_local!($($rest)*);
-        );
-        ($(#[$attr:meta])* $vis:vis static $name:ident: $t:ty = $init:expr) => (
-            thread_local!(@one $(#[$attr])* $vis $name, $t, $init);
-        );
-    }
+    macro_rules! thread_local { ($($t:tt)*) => { shuttle::thread_local! { $($t)* } }; }
 }
 mod define;
 mod error;
